@@ -3,17 +3,46 @@ package main
 import (
 	"fmt"
 	"strings"
+	"sync"
+	"time"
 
 	"verifharness/hx"
 
+	"github.com/iotaledger/hive.go/ds/shrinkingmap"
 	"github.com/iotaledger/hive.go/runtime/syncutils"
 )
 
 // One goroutine, sequential calls on a fresh object, until the first panic: the unlock-of-unheld matrix.
 // The expected answers come from the plain holder bookkeeping below (independent of Lean).
 
+// smFields reads the lock state without taking the internal mutex (only used when no call is in flight).
+func smFields(mu *syncutils.StarvingMutex) (int, int, int) {
+	wa := 0
+	if *(*bool)(fieldPtr(mu, "writerActive")) {
+		wa = 1
+	}
+
+	return wa, *(*int)(fieldPtr(mu, "readersActive")), *(*int)(fieldPtr(mu, "pendingWriters"))
+}
+
+// grantedWithin runs call in its own goroutine and reports whether it returned within d (a call that does not
+// return leaves its goroutine behind: only used for calls that must not be granted).
+func grantedWithin(call func(), d time.Duration) (granted bool, panicked string) {
+	done := make(chan string, 1)
+	go func() { done <- hx.Safely(call) }()
+	select {
+	case p := <-done:
+		return true, p
+	case <-time.After(d):
+		return false, ""
+	}
+}
+
+const probeWait = 40 * time.Millisecond
+
 func execSeqSM(r *hx.Run, ops []string) string {
 	mu := syncutils.NewStarvingMutex()
+	im := (*sync.Mutex)(fieldPtr(mu, "mutex"))
 	w, rd := false, 0
 	var ans []string
 	for _, op := range ops {
@@ -39,15 +68,34 @@ func execSeqSM(r *hx.Run, ops []string) string {
 		default:
 			return "bad-op"
 		}
+		w0, r0, p0 := smFields(mu)
 		p := hx.Safely(f)
 		state := fmt.Sprintf("writer=%v readers=%d", w, rd)
 		if p != "" {
-			ans = append(ans, "panic")
 			if !expectPanic {
 				r.Fail("unexpected-panic", fmt.Sprintf("StarvingMutex.%s panicked (%s) with %s", op, p, state),
 					sig("api", "StarvingMutex."+op, "oracle", "unexpected-panic", "state", state))
 			}
 			r.Count("seq-sm-panic:" + op)
+			// "panics instead of corrupting state": the lock state is what it was before the call ...
+			w1, r1, p1 := smFields(mu)
+			if w1 != w0 || r1 != r0 || p1 != p0 {
+				r.Fail("panic-corrupts-state", fmt.Sprintf("StarvingMutex.%s panicked (%s) but changed the lock state from writer=%d readers=%d pending=%d to writer=%d readers=%d pending=%d (sequence %v)",
+					op, p, w0, r0, p0, w1, r1, p1, ops), sig("api", "StarvingMutex."+op, "oracle", "panic-corrupts-state"))
+			}
+			ans = append(ans, "panic", fmt.Sprint(w1), fmt.Sprint(r1), fmt.Sprint(p1))
+			// ... and whatever the mutex grants afterwards still respects the holders.  The code as it is leaves its
+			// internal mutex locked (nothing is ever granted again); a mutex that stays usable is probed.
+			if !im.TryLock() {
+				ans = append(ans, "frozen")
+				r.Count("seq-sm-after-panic:frozen")
+
+				break
+			}
+			im.Unlock()
+			ans = append(ans, "live")
+			r.Count("seq-sm-after-panic:live")
+			smProbeAfterPanic(r, mu, op, w, rd, ops)
 
 			break
 		}
@@ -73,11 +121,58 @@ func execSeqSM(r *hx.Run, ops []string) string {
 	return strings.Join(ans, " ")
 }
 
-func execSeqDag(r *hx.Run, ops []string) string {
+// smProbeAfterPanic: the misuse panic was recovered and the mutex is still usable.  With the holders the harness
+// knows of (w, rd — the failed call released nothing): a reader must still be admitted only without a writer, and a
+// writer only when nobody holds the lock.
+func smProbeAfterPanic(r *hx.Run, mu *syncutils.StarvingMutex, misused string, w bool, rd int, ops []string) {
+	fail := func(what string) {
+		r.Fail("exclusion", fmt.Sprintf("after the recovered panic of StarvingMutex.%s: %s (sequence %v)", misused, what, ops),
+			sig("api", "StarvingMutex."+misused, "oracle", "granted-after-misuse-panic"))
+	}
+	if w {
+		if g, _ := grantedWithin(mu.RLock, probeWait); g {
+			fail("RLock was granted while the write lock is held")
+		}
+
+		return
+	}
+	if rd == 0 {
+		g, p := grantedWithin(mu.RLock, 2*time.Second)
+		if !g || p != "" {
+			fail("RLock on the unheld mutex was not granted (" + p + ")")
+
+			return
+		}
+	}
+	// at least one read lock is held now
+	if g, _ := grantedWithin(mu.Lock, probeWait); g {
+		fail("Lock was granted while a read lock is held")
+	}
+}
+
+// dagReg renders consumer counts and registry bits of the entities 0..7 (the driver's `compReg`).
+func dagReg(d *syncutils.DAGMutex[int]) string {
+	counts := *(**shrinkingmap.ShrinkingMap[int, int])(fieldPtr(d, "consumerCounter"))
+	mutexes := *(**shrinkingmap.ShrinkingMap[int, *syncutils.StarvingMutex])(fieldPtr(d, "mutexes"))
+	cs := make([]string, 8)
+	present := make([]byte, 8)
+	for x := 0; x < 8; x++ {
+		c, _ := counts.Get(x)
+		cs[x] = fmt.Sprint(c)
+		present[x] = b01(mutexes.Has(x))
+	}
+
+	return strings.Join(cs, ",") + ":" + string(present)
+}
+
+// execSeqDag: cont = go on after a recovered misuse panic when the registry mutex is free again (composed model).
+func execSeqDag(r *hx.Run, ops []string, cont bool) string {
 	d := syncutils.NewDAGMutex[int]()
 	w := map[int]bool{}
 	rd := map[int]int{}
 	var ans []string
+	misused := "" // the call whose panic was recovered ...
+	trigger := "" // ... and where it struck
 	for _, tok := range ops {
 		f := strings.SplitN(tok, ":", 2)
 		if len(f) != 2 {
@@ -86,17 +181,16 @@ func execSeqDag(r *hx.Run, ops []string) string {
 		op, xs := f[0], parseEnts(f[1])
 		var call func()
 		expectPanic := false
+		expectBlock := false
 		state := ""
 		switch op {
 		case "lock":
-			if w[xs[0]] || rd[xs[0]] > 0 {
-				return strings.Join(append(ans, "block"), " ")
-			}
+			expectBlock = w[xs[0]] || rd[xs[0]] > 0
 			call = func() { d.Lock(xs[0]) }
 		case "rlock":
 			for _, x := range xs {
 				if w[x] {
-					return strings.Join(append(ans, "block"), " ")
+					expectBlock = true
 				}
 			}
 			call = func() { d.RLock(xs...) }
@@ -120,16 +214,72 @@ func execSeqDag(r *hx.Run, ops []string) string {
 		default:
 			return "bad-op"
 		}
+		if expectBlock {
+			if misused == "" {
+				return strings.Join(append(ans, "block"), " ")
+			}
+			// after a recovered misuse panic the call is really issued: it must not be granted
+			g, p := grantedWithin(call, probeWait)
+			if !g {
+				return strings.Join(append(ans, "block"), " ")
+			}
+			if p != "" {
+				return strings.Join(append(ans, "panic"), " ")
+			}
+			r.Fail("exclusion", fmt.Sprintf("after the recovered panic of DAGMutex.%s: %s(%s) was granted although the entity is still held (the failed call released nothing); sequence %v", misused, op, f[1], ops),
+				sig("api", "DAGMutex."+misused, "oracle", "granted-after-misuse-panic", "trigger", trigger))
+			ans = append(ans, "ok")
+			if op == "lock" {
+				w[xs[0]] = true
+			} else {
+				for _, x := range xs {
+					rd[x]++
+				}
+			}
+
+			continue
+		}
+		reg0 := dagReg(d)
 		p := hx.Safely(call)
 		if p != "" {
 			ans = append(ans, "panic")
-			if !expectPanic {
+			if !expectPanic && misused == "" {
 				r.Fail("unexpected-panic", fmt.Sprintf("DAGMutex.%s(%s) panicked (%s); sequence %v", op, f[1], p, ops),
 					sig("api", "DAGMutex."+op, "oracle", "unexpected-panic"))
+			} else if !expectPanic {
+				// the holder cannot release what it holds any more: the recovered misuse took its registration
+				r.Fail("unexpected-panic", fmt.Sprintf("after the recovered panic of DAGMutex.%s: the holder's own %s(%s) panicked (%s); sequence %v", misused, op, f[1], p, ops),
+					sig("api", "DAGMutex."+op, "oracle", "holder-unlock-panics-after-misuse-panic", "misuse", "DAGMutex."+misused, "trigger", trigger))
 			}
 			r.Count("seq-dag-panic:" + op)
+			if !cont {
+				break
+			}
+			if !d.Mutex.TryLock() {
+				ans = append(ans, "frozen")
+				r.Count("seq-dag-after-panic:frozen")
 
-			break
+				break
+			}
+			d.Mutex.Unlock()
+			reg1 := dagReg(d)
+			ans = append(ans, "live:"+reg1)
+			r.Count("seq-dag-after-panic:live")
+			// where the panic struck: in unregisterMutexes at an id that is not registered (the ids before it are
+			// already unregistered), or inside the StarvingMutex method (wrong mode) after the unregistration
+			where := "unregistered-then-wrong-mode"
+			if strings.Contains(p, "too often") {
+				where = "earlier-ids-unregistered"
+			}
+			if reg1 != reg0 && expectPanic {
+				r.Fail("panic-corrupts-state", fmt.Sprintf("DAGMutex.%s(%s) panicked (%s) but changed the registry (consumer counts:entities with a mutex) from %s to %s; sequence %v",
+					op, f[1], p, reg0, reg1, ops), sig("api", "DAGMutex."+op, "oracle", "panic-corrupts-state", "trigger", where))
+			}
+			if misused == "" {
+				misused, trigger = op, where
+			}
+
+			continue
 		}
 		ans = append(ans, "ok")
 		if expectPanic {
@@ -163,11 +313,11 @@ func seqCase(r *hx.Run, kind string, ops []string) {
 	if kind == "sm" {
 		ans = execSeqSM(r, ops)
 	} else {
-		ans = execSeqDag(r, ops) // "dag": abstract-lock model, "dagc": composed model
+		ans = execSeqDag(r, ops, kind == "dagc") // "dag": abstract-lock model, "dagc": composed model
 	}
 	r.Line("seq "+kind+" "+strings.Join(ops, " "), ans)
 	r.Count("seq-" + kind)
-	if strings.HasSuffix(ans, "panic") {
+	if strings.Contains(ans, "panic") {
 		r.Nontrivial("seq:" + kind + ":" + strings.Join(ops, " "))
 	}
 }
@@ -184,12 +334,19 @@ func enumSeq(r *hx.Run, kind string, alphabet []string, maxLen int) {
 			if kind == "sm" {
 				ans = execSeqSM(probe, prefix)
 			} else {
-				ans = execSeqDag(probe, prefix)
+				ans = execSeqDag(probe, prefix, kind == "dagc")
 			}
+			afterPanic := strings.Contains(ans, "panic")
 			if strings.HasSuffix(ans, "block") {
+				if afterPanic {
+					seqCase(r, kind, prefix) // a call that (rightly) stays blocked after a recovered misuse panic
+				}
+
 				return
 			}
-			if strings.HasSuffix(ans, "panic") || len(prefix) == maxLen {
+			// a panic ends the run unless the registry stayed usable (" live:…", composed DAG model only)
+			ended := afterPanic && !strings.Contains(ans, " live:")
+			if ended || len(prefix) == maxLen {
 				seqCase(r, kind, prefix)
 
 				return
